@@ -919,7 +919,11 @@ class FormattedText:
                         f"Unknown property '{prop_}'", self.token, self.tokenizer
                     )
                 key, json_body, is_local = self.datapack.data.formatted_text_prop[prop_]
-                if isinstance(json_body, dict) and "nbt" in json_body.keys():
+                if (
+                    isinstance(json_body, dict)
+                    and "nbt" in json_body.keys()
+                    and callable(json_body["nbt"])
+                ):
                     self.current_json[key] = {}
                     self.current_json[key]["nbt"] = json_body["nbt"](arg)  # type: ignore # fmt: off
                     if "separator" in json_body.keys():
